@@ -111,6 +111,19 @@ class EngineBase:
             s.add(z3.Not(goal))
             r = s.check()
             if r == z3.unknown:
+                # relevance filtering: retry with only the hypotheses connected to the goal through shared
+                # uninterpreted symbols (sound: a subset of the hypotheses); widening radius
+                for depth in (1, 2, 3):
+                    hyps = self.relevant(list(self.background) + list(st.pc) + list(st.guards), goal, depth)
+                    s2 = self._solver(max(3000, self.timeout_ms // 2))
+                    s2.add(*hyps)
+                    s2.add(z3.Not(goal))
+                    r2 = s2.check()
+                    if r2 == z3.unsat:
+                        r = r2
+                        backend = f'z3(relevance-{depth})'
+                        break
+            if r == z3.unknown:
                 # one retry with a longer budget and another seed: verdicts must not flip when the machine is busy
                 s = self._solver(self.timeout_ms * 4)
                 s.set(random_seed=7)
@@ -146,6 +159,46 @@ class EngineBase:
         if assume_after:
             st.assume(goal)
         return status
+
+    _sym_cache = {}
+
+    def symbols(self, f):
+        key = f.get_id()
+        c = self._sym_cache.get(key)
+        if c is not None:
+            return c
+        out, stack, seen = set(), [f], set()
+        while stack:
+            x = stack.pop()
+            i = x.get_id()
+            if i in seen:
+                continue
+            seen.add(i)
+            if z3.is_quantifier(x):
+                stack.append(x.body())
+                continue
+            if z3.is_app(x):
+                d = x.decl()
+                if d.kind() == z3.Z3_OP_UNINTERPRETED:
+                    out.add(d.name())
+                stack.extend(x.children())
+        self._sym_cache[key] = out
+        return out
+
+    def relevant(self, hyps, goal, depth):
+        syms = set(self.symbols(goal))
+        chosen = [False] * len(hyps)
+        hs = [self.symbols(h) for h in hyps]
+        for _ in range(depth):
+            new = set()
+            for i, h in enumerate(hyps):
+                if not chosen[i] and (hs[i] & syms or not hs[i]):
+                    chosen[i] = True
+                    new |= hs[i]
+            if not new - syms:
+                break
+            syms |= new
+        return [h for h, c in zip(hyps, chosen) if c]
 
     def _model_vals(self, m):
         out = {}
